@@ -250,7 +250,7 @@ impl StateCheck for C04 {
 
 pub fn run(ctx: &Ctx) -> i32 {
     let shared = Shared::new("C04", ctx);
-    flow_models(ctx, &shared, C04, FlowSpec { quick_depth: 3, thorough_depth: 4, extra: vec![], deep: true, seeded: true, t3: false, valuesets: true });
+    flow_models(ctx, &shared, C04, FlowSpec { quick_depth: 3, thorough_depth: 4, extra: vec![], deep: true, heavy_oracle: false, seeded: true, t3: false, valuesets: true });
     finish(
         ctx,
         &shared,
